@@ -15,13 +15,18 @@
 (* Mode selects how Save writes sizes back: "separate" keeps stored size   *)
 (* and allowance apart (the design that satisfies the property), the Bug   *)
 (* modes are the defective variants of the pinned tree.                    *)
+(* Units: every size and allowance is in HALF points, because a border of  *)
+(* odd width contributes a fractional allowance (half its width) while     *)
+(* sizes are reported in whole points: the code stores set - floor(allow)  *)
+(* and reports floor(round(stored) + allow), round being half-to-even.     *)
+(* Mode "UnflooredAllowance" stores set - allow instead.                   *)
 (***************************************************************************)
 EXTENDS Integers, Sequences, FiniteSets, TLC
 CONSTANTS Lines,      \* row and column identifiers
-          Sizes,      \* sizes that may be set (integers)
-          Widths,     \* allowances of borders that may be drawn (integers; 0 = no border)
-          Default,    \* default size
-          Mode,       \* "separate" | "SaveFromMemoOnly" | "AllowanceSavedBack" | "BorderDropsSetSize"
+          Sizes,      \* sizes that may be set (whole points = even numbers of half points)
+          Widths,     \* allowances of borders that may be drawn (half points = the border's width in points; 0 = no border)
+          Default,    \* default size (half points, even)
+          Mode,       \* "separate" | "SaveFromMemoOnly" | "AllowanceSavedBack" | "BorderDropsSetSize" | "UnflooredAllowance"
           D
 VARIABLES stored,   \* Lines -> size in the file (0 = "use default")
           setv,     \* Lines -> size set through the API, or 0
@@ -33,8 +38,11 @@ VARIABLES stored,   \* Lines -> size in the file (0 = "use default")
 vars == <<stored, setv, memo, allow, disk, before, hist>>
 Ev(r) == hist' = Append(hist, r)
 
+FloorPt(x) == (x \div 2) * 2                                   \* whole points below x
+RoundPt(x) == IF x % 2 = 0 THEN x                                \* round to whole points, halves to the even one
+              ELSE IF ((x - 1) \div 2) % 2 = 0 THEN x - 1 ELSE x + 1
 Base(l) == IF stored[l] = 0 THEN Default ELSE stored[l]
-Computed(l) == Base(l) + allow[l]
+Computed(l) == FloorPt(RoundPt(Base(l)) + allow[l])
 Reported(l) == IF setv[l] # 0 THEN setv[l] ELSE IF memo[l] # 0 THEN memo[l] ELSE Computed(l)
 Obs == [l \in Lines |-> Reported(l)]
 
@@ -47,10 +55,11 @@ Border(l, w) == /\ allow' = [allow EXCEPT ![l] = w]
                 /\ setv' = IF Mode = "BorderDropsSetSize" THEN [setv EXCEPT ![l] = 0] ELSE setv
                 /\ UNCHANGED <<stored, disk, before>> /\ Ev([op |-> "border", l |-> l, w |-> w])
 Saved(l) ==
-  CASE Mode = "separate"           -> IF setv[l] # 0 THEN setv[l] - allow[l] ELSE stored[l]
+  CASE Mode = "separate"           -> IF setv[l] # 0 THEN setv[l] - FloorPt(allow[l]) ELSE stored[l]
+    [] Mode = "UnflooredAllowance" -> IF setv[l] # 0 THEN setv[l] - allow[l] ELSE stored[l]
     [] Mode = "SaveFromMemoOnly"   -> IF setv[l] # 0 THEN setv[l] ELSE IF memo[l] # 0 THEN memo[l] ELSE 0
     [] Mode = "AllowanceSavedBack" -> IF setv[l] # 0 THEN setv[l] ELSE Computed(l)
-    [] OTHER                       -> IF setv[l] # 0 THEN setv[l] - allow[l] ELSE stored[l]
+    [] OTHER                       -> IF setv[l] # 0 THEN setv[l] - FloorPt(allow[l]) ELSE stored[l]
 Save == /\ disk' = <<[l \in Lines |-> Saved(l)], allow>> /\ before' = Obs
         /\ UNCHANGED <<stored, setv, memo, allow>> /\ Ev([op |-> "save"])
 Reopen == /\ disk # <<>> /\ stored' = disk[1] /\ allow' = disk[2]
